@@ -172,8 +172,21 @@ func Check(t *testing.T, cfg Cfg, prop func(r *Run)) {
 	mu.Unlock()
 }
 
-// Case registers the generated case (JSON-serialisable); it is what a replay file holds.
-func (r *Run) Case(c any) { r.caseVal = c }
+// Case registers the generated case (JSON-serialisable); it is what a replay file holds.  With
+// VERIF_TRACK_CASE=1 the case is also written to <faildir>/inflight.<shard>.json while it runs, so that a
+// process killed by the race detector or by a fatal runtime error leaves its input behind.
+func (r *Run) Case(c any) {
+	r.caseVal = c
+	if os.Getenv("VERIF_TRACK_CASE") == "1" {
+		if dir := os.Getenv("VERIF_FAILDIR"); dir != "" {
+			raw, _ := json.Marshal(c)
+			doc := map[string]any{"property": st.Property, "test": r.cfg.Name, "case": json.RawMessage(raw), "msg": "the test process died while this case was running"}
+			b, _ := json.Marshal(doc)
+			i, _ := Shard()
+			os.WriteFile(filepath.Join(dir, fmt.Sprintf("inflight.%d.json", i)), b, 0o644)
+		}
+	}
+}
 
 // Class adds a label to the class histogram.
 func (r *Run) Class(label string) { r.classes = append(r.classes, label) }
